@@ -1723,6 +1723,17 @@ class FX:
                    via=via, kind=kind, fx=self)
         self.assigns.append(a)
 
+    def expand(self, e, depth=3):
+        """Substitute locals that were kept symbolic (localdefs) back into expression `e`."""
+        fx = self
+
+        class X(ast.NodeTransformer):
+            def visit_Name(self, n):
+                if n.id in fx.localdefs and depth > 0:
+                    return fx.expand(copy.deepcopy(fx.localdefs[n.id]), depth - 1)
+                return n
+        return X().visit(copy.deepcopy(e))
+
     def flatten_value(self, val, domain):
         """Flatten a statement-valued Python value (e.g. the list returned by a builder method) into
         Assign records of pseudo-domain `domain`; returns the new records."""
